@@ -163,7 +163,10 @@ def eager_consumptions(fnode, tainted, lazy_callbacks, for_loops=True):
                         n.func.value, ast.Name) and n.func.value.id in (
                             'itertools', 'collections', 'heapq', 'math',
                             'functools', 'utils'))) and any(
-                    expr_tainted(a) for a in n.args):
+                    expr_tainted(a) for a in (
+                        # reduce(function, iterable[, initial]) reads only
+                        # its second argument to the end
+                        n.args[1:2] if fn == 'reduce' else n.args)):
                 out.append((n.lineno, '%s(...) on an unlimited lazy value'
                             % fn))
             if fn in EAGER_METHODS and isinstance(n.func, ast.Attribute) \
